@@ -62,6 +62,22 @@ def used_from_obs(o, acc):
     return acc
 
 
+def zones_in_model(m, acc):
+    """zone keys of every zoned value the program supplies (DTSTART/DTEND/DUE/RECURRENCE-ID/date lists/periods/FREEBUSY)"""
+    def walk_value(v):
+        if isinstance(v, tuple):
+            if len(v) == 8 and v[0] == "dt" and isinstance(v[7], str) and v[7].startswith("zone:"):
+                acc.add(v[7][5:])
+            for x in v:
+                walk_value(x)
+    for pname, params, v in m[2]:
+        if pname.upper() in ("DTSTART", "DTEND", "DUE", "RECURRENCE-ID", "RDATE", "EXDATE", "FREEBUSY"):
+            walk_value(v)
+    for sub in m[3]:
+        zones_in_model(sub, acc)
+    return acc
+
+
 def minimal_vtimezone(tzid):
     from icalendar import Timezone, TimezoneStandard
     from datetime import datetime, timedelta
@@ -102,6 +118,20 @@ def check_case(ctx, case):
     # extra TZID carriers: explicit parameters on arbitrary properties, FREEBUSY with TZID, deep nesting
     comps = cal.walk()
     extra_ids = rng.sample(KNOWN + UNKNOWN + AMBIGUOUS, rng.randrange(0, 4))
+    program_zones = set()
+    for zkey in rng.sample(["Europe/Berlin", "America/New_York", "Asia/Tokyo", "Africa/Cairo"], rng.randrange(0, 2)):
+        # date lists and periods in a zone, handed to add() as Python values: the zone is in use whatever object the library builds from them
+        target = rng.choice([c for c in comps if c.name in ("VEVENT", "VTODO", "VJOURNAL")] or comps)
+        z0 = vals.py(("dt", 2024, 5, 6, 7, 8, 9, "zone:" + zkey))
+        from datetime import timedelta as _td
+        shape_ = rng.randrange(3)
+        if shape_ == 0:
+            target.add("rdate", [(z0, z0 + _td(hours=1))])
+        elif shape_ == 1:
+            target.add("rdate", [(z0, _td(hours=1)), (z0 + _td(days=1), _td(hours=2))])
+        else:
+            target.add("exdate", [z0, z0 + _td(days=1)])
+        program_zones.add(zkey)
     for tzid in extra_ids:
         target = rng.choice(comps)
         k = rng.randrange(3)
@@ -156,6 +186,11 @@ def check_case(ctx, case):
         return
     if set(got_used) != want_used:
         ctx.fail("used-tzids", observed=sorted(got_used), expected=sorted(want_used))
+        return
+    lost = (zones_in_model(model, set()) | program_zones) - set(got_used)
+    if lost:
+        # the scan above reads the parameters the value objects carry; what the *program* supplied is the model
+        ctx.fail("used-tzids-vs-program", observed=sorted(got_used), expected="also " + ", ".join(sorted(lost)))
         return
     want_missing = want_used - set(present)
     if set(got_missing) != want_missing:
